@@ -249,7 +249,7 @@ func execC09StdioServer(c C09Case) *Failure {
 				asks++
 			}
 		}
-		ok := out.WaitLines(c.Writers+asks, Bound()*8)
+		ok := out.WaitLines(c.Writers+asks, Patience())
 		out.WaitQuiet(5*time.Millisecond, 200*time.Millisecond)
 		pw.Close()
 		cancel()
@@ -334,7 +334,7 @@ func execC09GetStream(c C09Case) *Failure {
 	}
 	wg.Wait()
 	want := c.Writers * c.Rounds
-	evs := lr.WaitEvents(want, Bound()*8)
+	evs := lr.WaitEvents(want, Patience())
 	where := fmt.Sprintf("GET stream, %d concurrent senders x %d (sizes %v, class %s, %d overlapping writes)", c.Writers, c.Rounds, c.Sizes, c.Class, ctl.Overlaps)
 	for i, e := range errs {
 		if e != nil {
@@ -397,7 +397,7 @@ func execC09Legacy(c C09Case) *Failure {
 	if total > 90 {
 		total = 90 // the event queue holds 100 frames; beyond that is C01's business
 	}
-	evs := conn.stream.WaitEvents(before+total, Bound()*8)
+	evs := conn.stream.WaitEvents(before+total, Patience())
 	conn.stream.WaitQuiet(5*time.Millisecond, 100*time.Millisecond)
 	evs = conn.stream.Events()
 	where := fmt.Sprintf("legacy SSE stream, %d concurrent responses x %d with 1 ms keep-alive comments (%d comments seen, sizes %v, class %s)", c.Writers, c.Rounds, len(conn.stream.Comments()), c.Sizes, c.Class)
